@@ -2,6 +2,7 @@ package codec
 
 import (
 	"encoding"
+	"encoding/json"
 	"fmt"
 	"reflect"
 	"sort"
@@ -20,6 +21,63 @@ import (
 type c17HeldItem struct {
 	Type  string `json:"go_type"`
 	Value int64  `json:"value"`
+}
+
+
+// c17HeldRun renders the values one after the other, holds the texts, and reads them back.
+func c17HeldRun(items []c17HeldItem, types []reflect.Type) (sig string, err error) {
+	n := len(items)
+	var vals []reflect.Value
+	for _, it := range items {
+		var ty reflect.Type
+		for _, t := range types {
+			if t.Name() == it.Type {
+				ty = t
+			}
+		}
+		if ty == nil {
+			return "harness-unknown-type", fmt.Errorf("no type %s", it.Type)
+		}
+		pv := reflect.New(ty).Elem()
+		if ty.Kind() == reflect.Int32 {
+			pv.SetInt(it.Value)
+		} else {
+			pv.SetUint(uint64(it.Value))
+		}
+		vals = append(vals, pv)
+	}
+	texts := make([][]byte, n)
+	first := make([]string, n)
+	for i, pv := range vals {
+		var merr error
+		if perr := safely(func() error { texts[i], merr = pv.Interface().(encoding.TextMarshaler).MarshalText(); return nil }); perr != nil || merr != nil {
+			return "marshaltext-fails", fmt.Errorf("%s(%d).MarshalText: %v %v", items[i].Type, items[i].Value, perr, merr)
+		}
+		first[i] = string(texts[i])
+	}
+	for i, pv := range vals {
+		back := reflect.New(pv.Type())
+		tu, ok := back.Interface().(encoding.TextUnmarshaler)
+		if !ok {
+			continue
+		}
+		uerr := safely(func() error { return tu.UnmarshalText(texts[i]) })
+		same := uerr == nil
+		if same && pv.Kind() == reflect.Int32 {
+			same = back.Elem().Int() == pv.Int()
+		} else if same {
+			same = back.Elem().Uint() == pv.Uint()
+		}
+		if !same {
+			sig := "text-read-back-differs"
+			if string(texts[i]) != first[i] {
+				sig = "held-text-changed-by-later-marshaltext"
+			}
+			return sig, fmt.Errorf("value %d of %d: %s(%d) was written as %q; after the other values were written the held text is %q and reads back as %v (error %v)",
+				i+1, n, items[i].Type, items[i].Value, first[i], texts[i], back.Elem().Interface(), uerr)
+		}
+	}
+	return "", nil
 }
 
 func TestC17HeldTexts(t *testing.T) {
@@ -46,6 +104,16 @@ func TestC17HeldTexts(t *testing.T) {
 	if len(maskTypes) == 0 {
 		t.Fatalf("VERIF-INCONCLUSIVE harness-no-mask-types")
 	}
+	if rp := evid.LoadReplay(name); rp != nil {
+		var items []c17HeldItem
+		if err := json.Unmarshal(rp.Case, &items); err != nil {
+			t.Fatal(err)
+		}
+		if sig, err := c17HeldRun(items, types); err != nil {
+			t.Fatalf("VERIF-FAIL property=C17 test=%s sig=%s replay=: %v", name, sig, err)
+		}
+		return
+	}
 	rapid.Check(t, func(rt *rapid.T) {
 		n := rapid.IntRange(2, 8).Draw(rt, "n")
 		masksOnly := rapid.Bool().Draw(rt, "masksonly")
@@ -61,7 +129,7 @@ func TestC17HeldTexts(t *testing.T) {
 				flags := pins.Masks[pins.Tags[ty.Name()]]
 				v := int32(rapid.Uint32Range(0, uint32(1)<<uint(len(flags))-1).Draw(rt, "mask"))
 				if rapid.IntRange(0, 5).Draw(rt, "unnamedbit") == 0 {
-					v |= int32(1) << uint(rapid.IntRange(len(flags), 30).Draw(rt, "bit"))
+					v |= int32(uint32(1) << uint(rapid.IntRange(len(flags), 31).Draw(rt, "bit")))
 				}
 				pv.SetInt(int64(v))
 				items = append(items, c17HeldItem{ty.Name(), int64(v)})
@@ -84,38 +152,9 @@ func TestC17HeldTexts(t *testing.T) {
 		if rec.WantSample() {
 			rec.Sample(items)
 		}
-		texts := make([][]byte, n)
-		first := make([]string, n)
-		for i, pv := range vals {
-			var err error
-			if perr := safely(func() error { texts[i], err = pv.Interface().(encoding.TextMarshaler).MarshalText(); return nil }); perr != nil || err != nil {
-				rec.Fail(rt, name, "marshaltext-fails", fmt.Errorf("%s(%d).MarshalText: %v %v", items[i].Type, items[i].Value, perr, err), items)
-				return
-			}
-			first[i] = string(texts[i])
-		}
-		for i, pv := range vals {
-			back := reflect.New(pv.Type())
-			tu, ok := back.Interface().(encoding.TextUnmarshaler)
-			if !ok {
-				continue
-			}
-			err := safely(func() error { return tu.UnmarshalText(texts[i]) })
-			same := err == nil
-			if same && pv.Kind() == reflect.Int32 {
-				same = back.Elem().Int() == pv.Int()
-			} else if same {
-				same = back.Elem().Uint() == pv.Uint()
-			}
-			if !same {
-				sig := "text-read-back-differs"
-				if string(texts[i]) != first[i] {
-					sig = "held-text-changed-by-later-marshaltext"
-				}
-				rec.Fail(rt, name, sig, fmt.Errorf("value %d of %d: %s(%d) was written as %q; after the other values were written the held text is %q and reads back as %v (error %v)",
-					i+1, n, items[i].Type, items[i].Value, first[i], texts[i], back.Elem().Interface(), err), items)
-				return
-			}
+		if sig, err := c17HeldRun(items, types); err != nil {
+			rec.Fail(rt, name, sig, err, items)
+			return
 		}
 		rec.Eval(n)
 	})
